@@ -493,7 +493,9 @@ def standard_check(spec, tier, seed, replay=None):
         evals += len(cases)
         for c in cases:
             classes.setdefault(c[1], c)
-        mm, bad, err = eval_cases(prop, spec.case_module, cases, shard=spec.shard, tag="_".join([b, profile] + [x.strip("-") for x in extra]), prelude=spec.case_prelude)
+        module = getattr(spec, "module_overrides", {}).get(" ".join(extra), spec.case_module)
+        shard = getattr(spec, "shard_overrides", {}).get(" ".join(extra), spec.shard)
+        mm, bad, err = eval_cases(prop, module, cases, shard=shard, tag="_".join([b, profile] + [x.strip("-") for x in extra]), prelude=spec.case_prelude)
         if err:
             ctx.problems.append("case evaluation failed for %s/%s: %s" % (b, profile, err))
             continue
@@ -569,7 +571,8 @@ def do_replay(ctx, replay):
     log("regenerated case from the current implementation:")
     for c in cases:
         log("  ", c[2])
-    mm, bad, err = eval_cases(spec.prop, spec.case_module, cases, tag="replay", prelude=spec.case_prelude)
+    module = getattr(spec, "module_overrides", {}).get(" ".join(obj.get("args", [])), spec.case_module)
+    mm, bad, err = eval_cases(spec.prop, module, cases, tag="replay", prelude=spec.case_prelude)
     if err:
         log(err)
         return 2
